@@ -722,6 +722,8 @@ error:
 	status.error = EVRPC_STATUS_ERR_UNSTARTED;
 	(*ctx->cb)(&status, ctx->request, ctx->reply, ctx->cb_arg);
 	evrpc_request_wrapper_free(ctx);
+	/* the connection is still idle: the next queued request can have it */
+	evrpc_pool_schedule(pool);
 	return (-1);
 }
 
@@ -776,6 +778,8 @@ error:
 	status.error = EVRPC_STATUS_ERR_UNSTARTED;
 	(*ctx->cb)(&status, ctx->request, ctx->reply, ctx->cb_arg);
 	evrpc_request_wrapper_free(ctx);
+	/* the connection is still idle: the next queued request can have it */
+	evrpc_pool_schedule(pool);
 }
 
 /* we just queue the paused request on the pool under the req object */
